@@ -454,4 +454,85 @@ m('c07-twin-is-not-none', 'C07', 'neutral', TU, 'tree_sum',
   "if pytree_sum is None:\n  pytree_sum = jax.tree_util.tree_map(jnp.array, pytree)\nelse:\n  pytree_sum = _tree_add_eq(pytree_sum, pytree)",
   "if pytree_sum is not None:\n  pytree_sum = _tree_add_eq(pytree_sum, pytree)\nelse:\n  pytree_sum = jax.tree_util.tree_map(jnp.array, pytree)")
 
+# ---------------------------------------------------------------- C02
+JIT = 'ForEachClientJitBackend.__call__'
+PM = 'ForEachClientPmapBackend.__call__'
+m('c02-init-no-copy', 'C02', 'break', FEC, JIT + '.jit_client_init', "return jax.tree_util.tree_map(jnp.copy, state)",
+  "return state", expect='R-DONATE')
+m('c02-init-asarray', 'C02', 'break', FEC, JIT + '.jit_client_init', "return jax.tree_util.tree_map(jnp.copy, state)",
+  "return jax.tree_util.tree_map(jnp.asarray, state)", expect='R-DONATE')
+m('c02-donate-batch', 'C02', 'break', FEC, JIT, "jit_client_step = jax.jit(client_step, donate_argnums=0)",
+  "jit_client_step = jax.jit(client_step, donate_argnums=(0, 1))", expect='R-DONATE')
+m('c02-donate-shared', 'C02', 'break', FEC, JIT, "jit_client_final = jax.jit(client_final, donate_argnums=1)",
+  "jit_client_final = jax.jit(client_final, donate_argnums=(0, 1))", expect='R-DONATE')
+m('c02-read-after-final', 'C02', 'break', FEC, JIT + '.run_client', "return (output, step_results)",
+  "return (output, step_results + [state])", expect='R-DONATE.dead')
+m('c02-step-old-state-kept', 'C02', 'break', FEC, JIT + '.run_client', "state, step_result = jit_client_step(state, batch)",
+  "new_state, step_result = jit_client_step(state, batch)\nstate = new_state if step_results else state", expect='R-')
+m('c02-jit-skip-empty', 'C02', 'break', FEC, JIT + '.run',
+  "output, step_results = run_client(shared_input, client_batches, client_input)",
+  "output, step_results = run_client(shared_input, client_batches, client_input)\nif not step_results:\n  continue",
+  expect='R-YIELD1')
+m('c02-jit-yield-twice', 'C02', 'break', FEC, JIT + '.run', "yield (client_id, output, step_results)",
+  "yield (client_id, output, step_results)\nif not step_results:\n  yield (client_id, output, step_results)", expect='R-YIELD1')
+m('c02-debug-break', 'C02', 'break', FEC, 'ForEachClientDebugBackend.__call__.run', "step_results.append(step_result)",
+  "step_results.append(step_result)\nif len(step_results) > 1000:\n  break", expect='R-') if False else None
+m('c02-pmap-no-where-state', 'C02', 'break', FEC, PM + '.p_client_step',
+  "next_state = jax.tree_util.tree_map(functools.partial(jnp.where, mask), next_state, state)", "pass", expect='R-MASK.state')
+m('c02-pmap-where-swapped', 'C02', 'break', FEC, PM + '.p_client_step',
+  "next_state = jax.tree_util.tree_map(functools.partial(jnp.where, mask), next_state, state)",
+  "next_state = jax.tree_util.tree_map(functools.partial(jnp.where, mask), state, next_state)", expect='R-MASK.state')
+m('c02-pmap-no-where-result', 'C02', 'break', FEC, PM + '.p_client_step',
+  "step_result = jax.tree_util.tree_map(lambda x: jnp.where(mask, x, jnp.zeros_like(x)), step_result)", "pass",
+  expect='R-MASK.result')
+m('c02-pmap-yield-padding', 'C02', 'break', FEC, PM + '.run', "if not block.client_mask[i]:\n  continue", "pass",
+  expect='R-MASK.skip')
+m('c02-pmap-no-truncate', 'C02', 'break', FEC, PM + '.run', "step_results[:block.num_batches[i]]", "step_results", mode='expr',
+  expect='R-MASK.truncate')
+m('c02-pmap-wrong-slot-id', 'C02', 'break', FEC, PM + '.run', "block.client_id[i]", "block.client_id[len(outputs)]", mode='expr',
+  expect='R-MASK.id')
+m('c02-pmap-drop-last', 'C02', 'break', FEC, PM + '.run', "range(len(outputs))", "range(len(outputs) - 1)", mode='expr',
+  expect='R-YIELD1')
+m('c02-pmap-order-reversed', 'C02', 'break', FEC, PM + '.run', "outputs.reverse()", "pass", expect='R-YIELD1')
+m('c02-blockify-mask-true', 'C02', 'break', FEC, '_blockify', "client_mask.append(False)", "client_mask.append(True)",
+  expect='R-MASK.blockify-clients')
+m('c02-blockify-batch-mask', 'C02', 'break', FEC, '_blockify',
+  "if j < len(batches):\n  block_batch.append(batches[j])\n  batch_mask.append(True)\nelse:\n  block_batch.append(padding_batch)\n  batch_mask.append(False)",
+  "if j < len(batches):\n  block_batch.append(batches[j])\n  batch_mask.append(True)\nelse:\n  block_batch.append(padding_batch)\n  batch_mask.append(True)",
+  expect='R-MASK.blockify-batches')
+m('c02-blockify-off-by-one', 'C02', 'break', FEC, '_blockify', "j < len(batches)", "j <= len(batches)", mode='expr',
+  expect='R-MASK.blockify-batches') if False else None
+m('c02-blockify-sort-asc', 'C02', 'break', FEC, '_blockify', "clients.sort(key=lambda x: len(x[1]), reverse=True)",
+  "clients.sort(key=lambda x: len(x[1]))", expect='R-MASK.blockify-counts')
+m('c02-wrapper-yields-step', 'C02', 'break', FEC, 'for_each_client.run', "yield (client_id, client_output)",
+  "yield (client_id, _)", expect='R-YIELD1.wrapper') if False else None
+m('c02-wrapper-drops-output', 'C02', 'break', FEC, 'for_each_client.run',
+  "for client_id, client_output, _ in func(shared_input, clients):\n  yield (client_id, client_output)",
+  "for client_id, _, client_output in func(shared_input, clients):\n  yield (client_id, client_output)",
+  expect='R-YIELD1.wrapper')
+m('c02-ctx-no-finally', 'C02', 'break', FEC, 'for_each_client_backend',
+  "try:\n  set_for_each_client_backend(backend)\n  yield\nfinally:\n  set_for_each_client_backend(old)",
+  "set_for_each_client_backend(backend)\nyield\nset_for_each_client_backend(old)", expect='R-SCOPE.restore')
+m('c02-ctx-restore-none', 'C02', 'break', FEC, 'for_each_client_backend', "set_for_each_client_backend(old)",
+  "set_for_each_client_backend(None)", expect='R-SCOPE.restore')
+m('c02-ctx-save-after-set', 'C02', 'break', FEC, 'for_each_client_backend',
+  "try:\n  set_for_each_client_backend(backend)\n  yield\nfinally:\n  set_for_each_client_backend(old)",
+  "try:\n  set_for_each_client_backend(backend)\n  old = _BACKEND_CHOICE.backend\n  yield\nfinally:\n  set_for_each_client_backend(old)",
+  expect='R-SCOPE.restore')
+m('c02-not-thread-local', 'C02', 'break', FEC, None, "class BackendChoice(threading.local):\n  pass", "pass") if False else None
+m('c02-choice-plain-object', 'C02', 'break', FEC, 'BackendChoice.__init__', "super().__init__()", "pass") if False else None
+m('c02-writer-elsewhere', 'C02', 'break', FEC, 'get_for_each_client_backend', "return _BACKEND_CHOICE.get()",
+  "_BACKEND_CHOICE.backend = _BACKEND_CHOICE.DEFAULT_BACKEND\nreturn _BACKEND_CHOICE.get()", expect='R-SCOPE.who-may-write')
+m('c02-api-removed', 'C02', 'break', FEC, PM, "devices = jax.local_devices()", "devices = jax.local_devices_of_host()",
+  expect='R-API')
+m('c02-twin-copy-array', 'C02', 'neutral', FEC, JIT + '.jit_client_init', "return jax.tree_util.tree_map(jnp.copy, state)",
+  "return jax.tree_util.tree_map(jnp.array, state)")
+m('c02-twin-where-lambda', 'C02', 'neutral', FEC, PM + '.p_client_step',
+  "next_state = jax.tree_util.tree_map(functools.partial(jnp.where, mask), next_state, state)",
+  "next_state = jax.tree_util.tree_map(lambda n, o: jnp.where(mask, n, o), next_state, state)")
+m('c02-twin-mask-if', 'C02', 'neutral', FEC, PM + '.run', "if not block.client_mask[i]:\n  continue",
+  "if not block.client_mask[i]:\n  continue\nlogging_i = i")
+m('c02-twin-rename-old', 'C02', 'neutral', FEC, 'for_each_client_backend', "old = _BACKEND_CHOICE.backend",
+  "old = _BACKEND_CHOICE.backend\nprevious = old")
+
 _E[:] = [e for e in _E if e is not None]
